@@ -37,6 +37,7 @@ def the_ops(tier, seed):
     for op in gens.float_parse_hard_ops(rng, "default", [10], 120 if quick else 1500, rich=True, tails=3 if quick else 40):
         t = op.split(" ")
         ops.append("dpf %s %s %s" % (t[1], t[3], t[-1]))
+    ops += [op for op in gens.exact_tie_ops(rng, "default", per_q=3 if quick else 20) if op.startswith("dpf")]
     for op in gens.float_exp_ops(rng, "default", [10])[:: (3 if quick else 1)]:
         t = op.split(" ")
         ops.append("dpf %s %s %s" % (t[1], t[3], t[-1]))
